@@ -138,6 +138,19 @@ class Acc:
         vs, f = self.ctx.cache[id(self)][key]
         return z3.substitute(f, *zip(vs, t))
 
+    def member_pos(self, t, tag='sk'):
+        """membership for use as a HYPOTHESIS only (positive polarity): bound variables are replaced by fresh constants
+        (Skolemisation), no quantifier elimination needed"""
+        t = [Z(v) for v in t]
+        alts = []
+        for gi, g in enumerate(self.gens):
+            if not isinstance(g.elem, T) or len(g.elem.items) != len(t):
+                continue
+            fresh = [z3.Int('%s_%d_%d_%s' % (tag, id(self) % 9973, gi, b)) for b in g.bound]
+            body = z3.And([g.cond] + [Z(a) == b for a, b in zip(g.elem.items, t)])
+            alts.append(z3.substitute(body, *zip(g.bound, fresh)) if g.bound else body)
+        return z3.Or(alts) if alts else FALSE
+
     def value_at(self, t):
         """E-valued lookup: Pauli stored at key t (later generators override earlier ones)"""
         t = [Z(v) for v in t]
@@ -361,6 +374,12 @@ class Lattice:
 
     def S(self, t):
         return self.acc('get_stabilizer_coordinates').member(t)
+
+    def Q_hyp(self, t, tag='q'):
+        return self.acc('get_qubit_coordinates').member_pos(t, tag)
+
+    def S_hyp(self, t, tag='s'):
+        return self.acc('get_stabilizer_coordinates').member_pos(t, tag)
 
     def stab_arities(self):
         return self.acc('get_stabilizer_coordinates').arities()
